@@ -131,6 +131,7 @@ func (p *Poller) Poll(ctx context.Context, peer peer.ID) (*PollResult, error) {
 			res.Status = PollHit
 		}
 
+		received := 0
 		for cert := range ch {
 			// TODO: consider batching verification, it's slightly faster.
 			next, _, pt, err := certs.ValidateFinalityCertificates(
@@ -143,6 +144,7 @@ func (p *Poller) Poll(ctx context.Context, peer peer.ID) (*PollResult, error) {
 				return res, nil
 			}
 			res.ReceivedCertificates++
+			received++
 
 			// We check if we've already received this certificate not as an
 			// optimization but to determine whether or not this request was actually
@@ -162,7 +164,7 @@ func (p *Poller) Poll(ctx context.Context, peer peer.ID) (*PollResult, error) {
 		// least one).
 		if resp.PendingInstance <= p.NextInstance {
 			return res, nil
-		} else if res.ReceivedCertificates == 0 {
+		} else if received == 0 {
 			res.Status = PollFailed
 			// If they give me no certificates but claim to have more, treat this as a
 			// failure (could be a connection failure, etc).
